@@ -28,7 +28,7 @@ try:
             b = sh(f"{VERIF}/.venv/bin/python {VERIF}/tools/baseline.py {wt}", timeout=3000)
             ev["baseline_with_patch"] = b.stdout.strip().splitlines()[0] if b.stdout.strip() else b.stderr[-300:]
             ev["baseline_ok"] = b.returncode == 0
-        sh(f"git -C {wt} diff > {seed}/patch.applied.diff")
+        sh(f"git -C {wt} diff HEAD > {seed}/patch.applied.diff")
 finally:
     sh(f"git -C /repo worktree remove --force {wt}")
     shutil.rmtree(wt, ignore_errors=True)
